@@ -674,9 +674,9 @@ const (
 
 // bexp is the expectation for one declared variable after a successful match.
 type bexp struct {
-	any   bool   // assigned during an attempt that failed: no expectation
-	unset bool   // never assigned: the checker types it nilable → nil
-	v     *Val   // bound value
+	any   bool // assigned during an attempt that failed: no expectation
+	unset bool // never assigned: the checker types it nilable → nil
+	v     *Val // bound value
 }
 
 type env map[string]bexp
